@@ -610,6 +610,8 @@ class Ledger(metaclass=LedgerRegistry):
                 return True
 
     async def maybe_verify_transaction(self, tx, remote_height, merkle=None):
+        if tx.height != remote_height:
+            tx.is_verified = False  # a proof that reached the header of another height says nothing about this one
         tx.height = remote_height
         if 0 < remote_height < len(self.headers):
             # can't be tx.pending_verifications == 1 because we have to handle the transaction_show case
